@@ -181,6 +181,7 @@ fn run(ctx: &Ctx, rep: &Report) {
     };
     let key_ids: Vec<String> = keys.iter().map(key_id_hex).collect();
     rep.note(format!("key ids derived with the pgp crate: {:?}", keys.iter().map(|k| k.name).zip(key_ids.iter()).collect::<Vec<_>>()));
+    // the exhaustive alphabet uses the four keys the property names; the fifth (RSA-2048) joins the random histories
     let ops: Vec<Op> = vec![Op::Sign(0), Op::Sign(1), Op::Sign(2), Op::Sign(3), Op::Clear, Op::Reparse];
     // starting packages
     let dir = ctx.work_dir("starts");
@@ -230,7 +231,7 @@ fn run(ctx: &Ctx, rep: &Report) {
             let mut r = Rng::for_case(ctx.seed, "C10-hist", (s * 1000 + j) as u64);
             let len = 1 + r.usize(maxlen);
             // cheap keys preferred in random histories (protected RSA-3072 signing costs 270 ms)
-            let h: Vec<Op> = (0..len).map(|_| [Op::Sign(2), Op::Sign(3), Op::Sign(0), Op::Sign(2), Op::Sign(3), Op::Sign(1), Op::Clear, Op::Reparse, Op::Reparse][r.usize(9)]).collect();
+            let h: Vec<Op> = (0..len).map(|_| [Op::Sign(2), Op::Sign(3), Op::Sign(0), Op::Sign(4), Op::Sign(3), Op::Sign(1), Op::Clear, Op::Reparse, Op::Reparse][r.usize(9)]).collect();
             jobs.push((s, h));
         }
     }
